@@ -1358,3 +1358,47 @@ func ruleServerKeepsTheCallersConfig(c *eng.Ctx) {
 		c.Unresolved("the store of Server.config in server.New")
 	}
 }
+
+// ruleRecoveryCutsThePartialTail (R05.8 extension, shared with C01; round 12): the log file is opened in append mode, so a write
+// lands at the end of the FILE, whatever the segment's position field says. When the index was rebuilt at open and bytes are
+// left behind the last complete message set (a partial write), those bytes have to leave the file — setting the position back
+// is not enough: the next append lands behind the garbage while its index entry points at the garbage.
+func ruleRecoveryCutsThePartialTail(c *eng.Ctx) {
+	fn := c.Fn(cl + "(*segment).setupIndex")
+	if fn == nil {
+		return
+	}
+	p := c.P
+	rb := eng.CallsIn(fn, cl+"segment.rebuildIndex")
+	if len(rb) == 0 {
+		c.Unresolved("the rebuildIndex call of setupIndex")
+		return
+	}
+	posF := p.Field(clPkg, "segment", "position")
+	end := func(v ssa.Value) bool {
+		v = eng.Strip(v)
+		return eng.Call(-1, cl+"indexedEnd")(v) || eng.BinComm(token.ADD, eng.LoadNamed("Position", nil), eng.LoadNamed("Size", nil))(v)
+	}
+	noTail := eng.CmpEdges(fn, eng.Load(posF, nil), end, eng.LT|eng.EQ)
+	var from []ssa.Instruction
+	for _, r := range rb {
+		from = append(from, r.(ssa.Instruction))
+	}
+	q := &eng.PathQuery{Fn: fn, FromAfter: from, Target: func(x ssa.Instruction) bool {
+		r, isR := x.(*ssa.Return)
+		if !isR {
+			return false
+		}
+		rv := eng.RetVals(r)
+		return len(rv) == 1 && eng.NilConst(rv[0])
+	}, CutInstr: eng.IsCallTo("os.File.Truncate"), CutEdges: noTail}
+	w := q.Find()
+	// the cut is made at the end of the last indexed message set
+	okArg := false
+	for _, tc := range eng.CallsIn(fn, "os.File.Truncate") {
+		if a := eng.AllArgs(tc.Common()); len(a) == 2 && end(a[1]) {
+			okArg = true
+		}
+	}
+	c.Check(w == nil && okArg, "a partial write found when the index is rebuilt is cut off the log file", p.Pos(fn.Pos()), "after rebuildIndex: position ≤ indexed end, or s.log.Truncate(indexed end), before setupIndex succeeds", "setupIndex can succeed after a rebuild with bytes left behind the last complete message set (path "+w.String()+"): the log is opened in append mode, so the next append lands behind that garbage while its index entry points at the garbage — readers meet a torn message where an acknowledged one should be")
+}
